@@ -6,9 +6,13 @@ import (
 	"os"
 	"os/exec"
 	"strings"
+	"sync"
+	"sync/atomic"
 	"testing"
 	"time"
 
+	codectypes "github.com/cosmos/cosmos-sdk/codec/types"
+	sdk "github.com/cosmos/cosmos-sdk/types"
 	"pgregory.net/rapid"
 
 	"verif/eng"
@@ -84,6 +88,22 @@ func withoutSpec(tr *eng.Trace) (*eng.Trace, int) {
 	return &c, n
 }
 
+// traceMsgs returns the binary messages of a trace (speculative ones included).
+func traceMsgs(tr *eng.Trace) [][]byte {
+	var out [][]byte
+	for _, s := range tr.Steps {
+		if len(s.Bin) > 0 {
+			out = append(out, s.Bin)
+		}
+		for _, x := range s.Sub {
+			if len(x.Bin) > 0 {
+				out = append(out, x.Bin)
+			}
+		}
+	}
+	return out
+}
+
 func firstDifference(a, b []string) string {
 	for i := 0; i < len(a) && i < len(b); i++ {
 		if a[i] != b[i] {
@@ -150,6 +170,36 @@ func checkC10(t *rapid.T) {
 		if strings.Join(rec.Lines, "\n") != strings.Join(rz.Lines, "\n") {
 			report("time-zone-changes-result", "execution with another local time zone differs", rec.Lines, rz.Lines)
 		}
+	}
+	// schedules: the same trace (no restarts) while other goroutines keep simulating its messages on
+	// discarded branches of committed state through the same keepers
+	if msgs := traceMsgs(tr); len(msgs) > 0 {
+		rc := &mon.Recorder{}
+		var stop atomic.Bool
+		var wg sync.WaitGroup
+		eng.ReplayHook(variant(tr, "none"), prof, failT(t), func(w *eng.World) {
+			c := w.C
+			for g := 0; g < 3; g++ {
+				wg.Add(1)
+				go func(g int) {
+					defer wg.Done()
+					for i := g; !stop.Load(); i++ {
+						var any codectypes.Any
+						var m sdk.Msg
+						if any.Unmarshal(msgs[i%len(msgs)]) != nil || c.Cdc.UnpackAny(&any, &m) != nil {
+							continue
+						}
+						c.Simulate(m)
+					}
+				}(g)
+			}
+		}, rc)
+		stop.Store(true)
+		wg.Wait()
+		if strings.Join(rec.Lines, "\n") != strings.Join(rc.Lines, "\n") {
+			report("concurrent-simulation-changes-result", "execution while other goroutines simulate messages differs", rec.Lines, rc.Lines)
+		}
+		eng.G.Count("C10/executions", 1)
 	}
 	// metamorphic: dropping the failed messages leaves every block hash unchanged
 	r4 := &mon.Recorder{}
